@@ -19,9 +19,6 @@ package main
 import (
 	"encoding/json"
 	"fmt"
-	"os"
-	"runtime/pprof"
-	"strconv"
 	"strings"
 	"sync"
 	"sync/atomic"
@@ -95,35 +92,6 @@ func run(ctx *xplor.Ctx) {
 			sig, why, classes := runC(*r.C)
 			reportC(ctx, *r.C, sig, why, classes)
 		}
-		return
-	}
-	if v := os.Getenv("C17_PROF"); v != "" { // developer aid: profile the BFS of one configuration
-		f, _ := os.Create("/tmp/c17.prof")
-		pprof.StartCPUProfile(f)
-		cfgs := configsB(ctx.Tier)
-		if strings.HasPrefix(v, "{") {
-			var c bcfg
-			if err := json.Unmarshal([]byte(v), &c); err != nil {
-				panic(err)
-			}
-			cfgs, v = []bcfg{c}, "0"
-		}
-		for n, c := range cfgs {
-			if v != "all" && v != strconv.Itoa(n) {
-				continue
-			}
-			if v == "all" && (c.MaxFail != 3 || c.PendConn != 10) {
-				continue
-			}
-			st := &bfsStats{finals: map[string]int64{}}
-			t0 := time.Now()
-			bfs(ctx, c, st)
-			fmt.Fprintf(os.Stderr, "%d %s: states=%d trans=%d depth=%d %v\n", n, c, st.states, st.trans, st.maxDepth, time.Since(t0))
-			if v != "all" {
-				fmt.Fprintf(os.Stderr, "finals=%v\n", st.finals)
-			}
-		}
-		pprof.StopCPUProfile()
 		return
 	}
 	idx := 0
